@@ -43,7 +43,30 @@ def violates(cf, pics):
     return None, "lossless" if cf["lossless"] else "qindex0"
 
 
+def big_slice_case(rng):
+    """lossless, FEW LARGE slices, all the detail in ONE component (the others flat): a slice's coefficient block of
+    that component alone exceeds 255 bytes, so the length fields need a slice size scaler chosen from the right component"""
+    base = G.describe(G.rand_config(rng, lossless=True))
+    d = rng.choice([10, 12, 16])
+    cdf = rng.choice([0, 0, 1])
+    desc = dict(base, profile=3, pcm=0, lossless=True, w=16, h=rng.choice([8, 12, 16]), cdf=cdf, ss=0, luma_off=0, luma_exc=(1 << d) - 1,
+                cd_exc=(1 << d) - 1, cd_off=1 << (d - 1), wavelet=rng.choice([3, 4, 1]), depth=rng.choice([0, 1]), depth_ho=0,
+                sx=rng.choice([1, 1, 2]), sy=1, frag=rng.choice([0, 0, 1]), picture_bytes=None, qm=None)
+    desc["wavelet_ho"] = desc["wavelet"]
+    desc.pop("meta", None)   # (the base configuration's clean area belongs to another frame size)
+    cf = G.from_description(desc)
+    dims = G.dims(cf)
+    busy = rng.choice(["Y", "C1", "C2", "C2"])
+    pic = {}
+    for c, (w, h, depth, _) in dims.items():
+        top = (1 << depth) - 1
+        pic[c] = [[rng.randrange(0, top + 1) if c == busy else top // 2 for _ in range(w)] for _ in range(h)]
+    return cf, [pic]
+
+
 def rand_case(rng):
+    if rng.random() < 0.12:
+        return big_slice_case(rng)
     if rng.random() < 0.7:
         cf = G.rand_config(rng, lossless=True)
     else:
